@@ -207,7 +207,35 @@ def _install_line_hook(p, events, cap):
 ERRLINE = __import__("re").compile(r"^\[[^\]]*\] Line \d+: ")     # what ErrorHandler sends to the printers under 'print'
 
 
+HARNESS_FAILURES = []      # tracebacks of failures of the harness's own observation code (never raised into the implementation)
+
+
+def harness_failed(where):
+    import traceback
+
+    HARNESS_FAILURES.append(f"{where}:\n{traceback.format_exc()}")
+
+
+def check_harness():
+    """called after every unit of work: a failure of the observation code is a machinery failure (exit 2), not a verdict"""
+    if HARNESS_FAILURES:
+        from .tlc import MachineryError
+
+        raise MachineryError("the harness's observation code failed (a hook point or attribute it reads is gone?):\n" + HARNESS_FAILURES[0][-1500:])
+
+
 def snapshot(p, line, ret, exc, cap):
+    """the observable state after one _consider_line call. Runs inside the implementation's call stack (the wrappers' finally
+    blocks): it must not raise there - the implementation would handle the exception as one of its own."""
+    try:
+        return _snapshot(p, line, ret, exc, cap)
+    except Exception:  # noqa
+        harness_failed("runner.snapshot")
+        return {"k": -1, "line": [], "ret": ret, "exc": None, "scan_count": -1, "match_count": -1, "stopped": False, "advance": 0, "valid": True,
+                "vars": {}, "votes": None, "nprinted": 0, "nerrmsgs": 0, "nerrors": 0, "errcalls": 0, "errlines": []}
+
+
+def _snapshot(p, line, ret, exc, cap):
     lm = p.line_monitor
     nerr = cap.errmsgs
     if nerr > getattr(cap, "_err_lines", 0):
@@ -226,7 +254,6 @@ def snapshot(p, line, ret, exc, cap):
         "stopped": p.stopped,
         "advance": p.advance_count,
         "valid": p.is_valid,
-        "frozen": p._freeze_path,
         "vars": _copy_vars(p.variables),
         "votes": votes,
         "nprinted": len(cap.lines),
